@@ -20,7 +20,7 @@ for a, b in rep.items():
 i0 = s.index('// =========================================================================================================\n// block-fetch:')
 i1 = s.index('// ---- vacuity guard: canary')
 s = s[:i0] + s[i1:]
-s = s.replace('//@@ min-verified 58', '//@@ min-verified 35')
+s = s.replace('//@@ min-verified 69', '//@@ min-verified 35')
 s = s.replace('[[C22.', '[[C22.net2.')
 s = s.replace('// Contract unit for C22:', "// Contract unit for C22 (pallas-network2; generated from C22_message_codecs.vt by tools/gen_c22_net2.py — same contracts, the other stack's source files):")
 open(os.path.join(V, 'contracts/C22_message_codecs_net2.vt'), 'w').write(s)
